@@ -205,6 +205,24 @@ def builders(model):
         B['BregmanDistance[KullbackLeibler,%s]' % t] = lambda I, w=w: inst(
             I, 'BregmanDistance', leaf(I, w, 'KullbackLeibler'),
             sym_elem(X(w), 'y'), sym_elem(X(w), 'u'))
+        # derived functionals on a *linear* leaf <., v> (their values are
+        # affine, their flag must say so)
+        def lin(I, w=w):
+            return inst(I, 'QuadraticForm', vector=sym_elem(X(w), 'v'))
+        B['QuadraticForm[vector v,%s]' % t] = lin
+        B['expr:<., v>.translated(y)[%s]' % t] = lambda I, lin=lin: I.call(
+            I.getattr_value(lin(I), 'translated'), [sym_elem(
+                I.getattr_value(lin(I), 'domain'), 'y')], {})
+        B['expr:a * <., v>.translated(y)[%s]' % t] = (
+            lambda I, lin=lin: I.binop(ast.Mult, Rat.var('a'), I.call(
+                I.getattr_value(lin(I), 'translated'), [sym_elem(
+                    I.getattr_value(lin(I), 'domain'), 'y')], {})))
+        B['expr:<., v> + c[%s]' % t] = lambda I, lin=lin: I.binop(
+            ast.Add, lin(I), Rat.var('c'))
+        B['expr:<., v> * a[%s]' % t] = lambda I, lin=lin: I.binop(
+            ast.Mult, lin(I), Rat.var('a'))
+        B['expr:<., v> + L2Norm[%s]' % t] = lambda I, lin=lin, w=w: I.binop(
+            ast.Add, lin(I), leaf(I, w))
     # a non-symmetric operator (unweighted: the weighted MatrixOperator
     # adjoint is known finding F28 of C05) and nonlinear inner operators
     def mat(name, shape):
@@ -296,6 +314,25 @@ def evaluate(model, build):
             dbad.append('derivative(x)(d) is %s, sum_j df/dx_j d_j is %s'
                         % (_s(dv), _s(want)))
     res['der_bad'] = dbad
+    # the linearity flag: a functional flagged linear takes the value 0 at 0
+    # and is additive (is_linear short-cuts derivative, arithmetic and
+    # solvers)
+    try:
+        flagged = I.getattr_value(f, 'is_linear')
+    except PyRaise:
+        flagged = False
+    if flagged is True and not isinstance(dom, NField):
+        zero = {}
+        for xv in xs:
+            (var,) = list(xv.vars())
+            zero[var] = Rat.const(0)
+        f0 = PA.reduce_full(mdiff.deep_subs(fx, zero, lambda k, a, at: (
+            PA.abs_nf(a, H.signs) if k == 'abs' else
+            PA.root(a, 2, H.signs) if k == 'sqrt' else
+            Rat.var(at))))
+        if not f0.n.is_zero():
+            res['der_bad'] = dbad + [
+                'is_linear is True but f(0) = %s' % _s(f0)]
     return res
 
 
